@@ -22,8 +22,8 @@ type c08Cell struct {
 	Backend  string `json:"backend"`
 	Batch    string `json:"batch"` // none | expireall | deleteall | cleanup | evict | walk
 	Strategy int    `json:"strategy"`
-	A        []int  `json:"a"` // thread A program (op indices)
-	NB       int    `json:"nb"` // length of thread B programs enumerated inside the cell
+	A        []int  `json:"a"`           // thread A program (op indices)
+	NB       int    `json:"nb"`          // length of thread B programs enumerated inside the cell
 	C        bool   `json:"c,omitempty"` // thorough: a third single-op thread is enumerated too
 }
 
